@@ -177,6 +177,7 @@ Definition required : list (string * policy) := [
   ("SparseArray.__array_ufunc__", Computes); ("SparseArray.__array_function__", Computes); ("SparseArray._reduce", Computes);
   ("COO._reduce_return", Computes); ("GCXS._reduce_return", Computes);
   ("COO.isinf", Computes); ("COO.isnan", Computes); ("GCXS.isinf", Computes); ("GCXS.isnan", Computes);
+  ("DOK.isinf", Computes); ("DOK.isnan", Computes);
   ("COO.from_iter", Computes); ("COO.from_numpy", Computes); ("COO.from_scipy_sparse", Computes);
   ("GCXS.from_iter", Computes); ("GCXS.from_numpy", Computes); ("GCXS.from_scipy_sparse", Computes);
   ("DOK.from_numpy", Computes); ("DOK.from_scipy_sparse", Computes);
@@ -313,8 +314,11 @@ Definition maybe_densify_gcxs (size max_size : Z) (density_low : bool) : res pyv
    and the result's fill (the value of a group without stored values) is  fill * n_cols,  or the ufunc identity when
    n_cols == 0 (fix d2cf53a).  NumPy's meaning is the sum of the stored values and (n - c) copies of the fill.
    Values: extended integers (the IEEE special values as far as + and * by a count are concerned; inf * 0 = nan).
-   Tie to the source: tools/frags/fill.py (s_reduce_admissible: `requires_nested`) checks that the statements
-   transcribed here are still present in SparseArray.reduce; the `*_full` recipes of the campaign exercise them. *)
+   (Since fix 5ade83d the fill is first converted to the accumulation dtype, `fill_value = data.dtype.type(self.fill_value)`;
+   dtypes are not modelled.)
+   Tie to the source: tools/frags/fill.py (s_reduce_correction_pins) checks that the statements transcribed here are still
+   present in SparseArray.reduce and emits them as Gen/S_fill.v:s_reduce_correction_pins, which the theorems
+   sum_fill_correction / sum_result_fill_right mention; the `*_full` recipes of the campaign exercise them. *)
 Inductive xz := Fin (z : Z) | PInf | NInf | XNaN.
 
 Definition xadd (a b : xz) : xz :=
